@@ -1,6 +1,371 @@
-# leaves of C16: the size recovery used when an RDMs object is rebuilt from a file, and the
-# small-sample variance correction a reloaded Result applies (inference/result.py ->
-# extract_variances -> _correct_1d): the text that decides whether a reload can change variances
+"""Leaf specs for C16 (save / load).
+
+Native py2lean leaves (translated straight from /repo's text):
+  nFromReduced            util/rdm_utils.py   _get_n_from_reduced_vectors
+  correct1d{Both,...}     util/inference_util.py  _correct_1d  (4 specialisations)
+
+The other leaves are *decision structures* of the save / load code (an isinstance chain, a
+try / except, suffix tests on a file name, the order of `remove_file` and the writers) that are
+outside the scalar subset of py2lean.  As `leaves/C18.py` does, this module first derives from the
+current source text (Python `ast`) a tiny scalar Python function per structure and writes it to
+`harness/leaves/_C16_derived.py`; py2lean then translates those as usual.  Nothing is cached.
+Each derivation fails closed: an unexpected shape of the anchor yields a body calling
+`__underivable__`, which py2lean reports as an untranslatable leaf = broken obligation.
+
+  write_dispatch   io/hdf5.py `_write_to_group`: the if / elif chain over the value's Python type,
+                   in source order.  Tests `isinstance(value, T)` / `value is None` become 0/1 flags
+                   (is_str, is_ndarray, is_list, is_tuple, is_dict, is_none, is_iterable); each
+                   branch body is classified by the writer primitive it uses:
+                     1 attribute `group.attrs[key] = str(value)`      2 array (`<U` encoded)
+                     3 `_write_list`      4 sub-group + recursion      5 `Empty`
+                     6 generic iterable (`list(value)`: str sequence -> attribute, else `_write_list`)
+                     7 raw `group[key] = value`                        0 nothing written
+  list_dispatch    io/hdf5.py `_write_list`: `np.array(value)`; `<U` -> 1 encoded bytes, else 2 raw;
+                   a TypeError / ValueError that the `except` clause catches -> 3 per-element group,
+                   one it does not catch -> 0
+  detect_{rdm,dataset,results}
+                   the suffix tests of `load_rdm` / `load_dataset` / `load_results`
+                   (`filename[-4:] == '.pkl'` ...): 1 pkl, 2 hdf5, 0 not understood
+  save_plan_{rdms,dataset,result}
+                   `save` of RDMs / DatasetBase / Result: which writer runs (2 hdf5, 4 pkl, 0 none)
+                   plus 1 if `remove_file` ran before it, as a function of
+                   (file_type == 'hdf5', file_type == 'pkl', overwrite)
+  save_default_{rdms,dataset,result}
+                   default `file_type` of `save` (2 hdf5, 4 pkl) plus the default of `overwrite`
+  guard            io/hdf5.py `write_dict_hdf5`: 1 = refuse (`raise ValueError`) exactly when the
+                   target is a str path that exists, as a function of (is_str, exists)
+"""
+import ast
+import os
+
+SRC = os.environ.get('RSA_REPO_SRC', '/repo/src/rsatoolbox')
+HERE = os.path.dirname(os.path.abspath(__file__))
+DERIVED = os.path.join(HERE, '_C16_derived.py')
+
+
+class Underivable(Exception):
+    pass
+
+
+def _func(path, name, cls=None):
+    tree = ast.parse(open(os.path.join(SRC, path)).read())
+    scope = tree
+    if cls is not None:
+        found = [n for n in ast.walk(tree) if isinstance(n, ast.ClassDef) and n.name == cls]
+        if not found:
+            raise Underivable(f'{path}: class {cls} not found')
+        scope = found[0]
+    for node in ast.walk(scope):
+        if isinstance(node, ast.FunctionDef) and node.name == name:
+            return node
+    raise Underivable(f'{path}: function {name} not found')
+
+
+def _strip_doc(body):
+    if body and isinstance(body[0], ast.Expr) and isinstance(body[0].value, ast.Constant) \
+            and isinstance(body[0].value.value, str):
+        return body[1:]
+    return body
+
+
+# ----------------------------------------------------------------------------- _write_to_group
+
+TYPE_FLAG = {'str': 'is_str', 'np.ndarray': 'is_ndarray', 'list': 'is_list', 'tuple': 'is_tuple',
+             'dict': 'is_dict', 'Iterable': 'is_iterable'}
+WRITE_FLAGS = ['is_str', 'is_ndarray', 'is_list', 'is_tuple', 'is_dict', 'is_none', 'is_iterable']
+
+
+def _type_test(test, var='value'):
+    """python test on the value's type -> scalar test text over the 0/1 flags"""
+    if isinstance(test, ast.Call) and ast.unparse(test.func) == 'isinstance' and len(test.args) == 2 \
+            and ast.unparse(test.args[0]) == var:
+        t = test.args[1]
+        names = [ast.unparse(e) for e in t.elts] if isinstance(t, ast.Tuple) else [ast.unparse(t)]
+        if not all(n in TYPE_FLAG for n in names):
+            raise Underivable(f'type test on {names}')
+        return ' or '.join(f'{TYPE_FLAG[n]} > 0' for n in names)
+    if isinstance(test, ast.Compare) and ast.unparse(test) == f'{var} is None':
+        return 'is_none > 0'
+    if isinstance(test, ast.BoolOp) and isinstance(test.op, ast.Or):
+        return ' or '.join('(' + _type_test(v, var) + ')' for v in test.values)
+    raise Underivable(f'test `{ast.unparse(test)}` is not a type test on {var}')
+
+
+def _calls(nodes):
+    out = set()
+    for n in nodes:
+        for c in ast.walk(n):
+            if isinstance(c, ast.Call):
+                out.add(ast.unparse(c.func))
+    return out
+
+
+def _targets(nodes):
+    out = set()
+    for n in nodes:
+        for c in ast.walk(n):
+            if isinstance(c, ast.Assign):
+                out.update(ast.unparse(t) for t in c.targets)
+    return out
+
+
+def _classify_write(body):
+    calls, targets = _calls(body), _targets(body)
+    text = ' ; '.join(ast.unparse(b) for b in body)
+    if 'list' in calls and '_write_list' in calls and 'group.attrs[key]' in targets:
+        return 6
+    if 'create_group' in {c.split('.')[-1] for c in calls} and '_write_to_group' in calls:
+        return 4
+    if calls == {'_write_list'} and not targets:
+        return 3
+    if 'Empty' in calls and targets == {'group[key]'}:
+        return 5
+    if targets == {'group.attrs[key]'} and 'str' in calls and '_write_list' not in calls:
+        return 1
+    if targets == {'group[key]'} and 'np.char.encode' in calls:
+        return 2
+    if targets == {'group[key]'} and not calls and text == 'group[key] = value':
+        return 7
+    raise Underivable(f'branch body `{text[:80]}` not recognised')
+
+
+def _write_dispatch():
+    fn = _func('io/hdf5.py', '_write_to_group')
+    loops = [n for n in _strip_doc(fn.body) if isinstance(n, ast.For)]
+    if len(loops) != 1 or ast.unparse(loops[0].iter) != 'dictionary.keys()':
+        raise Underivable('the loop over dictionary.keys() was not found')
+    body = loops[0].body
+    if not (len(body) == 2 and ast.unparse(body[0]) == 'value = dictionary[key]'
+            and isinstance(body[1], ast.If)):
+        raise Underivable('loop body is not `value = dictionary[key]` + one if-chain')
+    lines, node, kw = [], body[1], 'if'
+    while True:
+        lines.append(f'    {kw} {_type_test(node.test)}:')
+        lines.append(f'        return {_classify_write(node.body)}')
+        if len(node.orelse) == 1 and isinstance(node.orelse[0], ast.If):
+            node, kw = node.orelse[0], 'elif'
+            continue
+        lines.append('    else:')
+        lines.append(f'        return {_classify_write(node.orelse) if node.orelse else 0}')
+        break
+    return lines
+
+
+def _list_dispatch():
+    fn = _func('io/hdf5.py', '_write_list')
+    body = _strip_doc(fn.body)
+    if not (len(body) == 1 and isinstance(body[0], ast.Try) and not body[0].orelse
+            and not body[0].finalbody and len(body[0].handlers) == 1):
+        raise Underivable('_write_list is not one try / except')
+    tr = body[0]
+    if not (len(tr.body) == 2 and ast.unparse(tr.body[0]) == 'array = np.array(value)'
+            and isinstance(tr.body[1], ast.If) and len(tr.body[1].orelse) == 1):
+        raise Underivable('try body is not `array = np.array(value)` + if / else')
+    cond = ast.unparse(tr.body[1].test)
+    if cond not in ("str(array.dtype)[:2] == '<U'", "array.dtype.kind == 'U'"):
+        raise Underivable(f'unicode test `{cond}`')
+    yes = ast.unparse(tr.body[1].body[0]) if len(tr.body[1].body) == 1 else ''
+    no = ast.unparse(tr.body[1].orelse[0])
+    if yes != "group[key] = np.char.encode(array, 'utf-8')" or no != 'group[key] = array':
+        raise Underivable('unicode / raw branches changed')
+    h = tr.handlers[0]
+    caught = set()
+    if h.type is not None:
+        caught = {ast.unparse(e) for e in h.type.elts} if isinstance(h.type, ast.Tuple) \
+            else {ast.unparse(h.type)}
+    else:
+        caught = {'TypeError', 'ValueError'}
+    if 'Exception' in caught:
+        caught |= {'TypeError', 'ValueError'}
+    hc = _calls(h.body)
+    if not ('create_group' in {c.split('.')[-1] for c in hc} and '_write_to_group' in hc):
+        raise Underivable('except body does not write a per-element group')
+    return ['    if raises_type > 0:', f"        return {3 if 'TypeError' in caught else 0}",
+            '    elif raises_value > 0:', f"        return {3 if 'ValueError' in caught else 0}",
+            '    elif is_unicode > 0:', '        return 1', '    else:', '        return 2']
+
+
+# ----------------------------------------------------------------------------- loaders
+
+SUFFIX_FLAG = {(4, '.pkl'): 'end4_pkl', (3, '.h5'): 'end3_h5', (4, 'hdf5'): 'end4_hdf5'}
+TYPE_CODE = {'pkl': 1, 'hdf5': 2}
+
+
+def _suffix_test(test):
+    if isinstance(test, ast.BoolOp) and isinstance(test.op, ast.Or):
+        return ' or '.join(_suffix_test(v) for v in test.values)
+    if isinstance(test, ast.Compare) and len(test.ops) == 1 and isinstance(test.ops[0], ast.Eq) \
+            and isinstance(test.comparators[0], ast.Constant) and isinstance(test.left, ast.Subscript) \
+            and ast.unparse(test.left.value) == 'filename' and isinstance(test.left.slice, ast.Slice):
+        sl = test.left.slice
+        lo = ast.unparse(sl.lower) if sl.lower is not None else ''
+        if sl.upper is None and sl.step is None and lo.startswith('-') and lo[1:].isdigit():
+            key = (int(lo[1:]), test.comparators[0].value)
+            if key in SUFFIX_FLAG:
+                return f'{SUFFIX_FLAG[key]} > 0'
+    raise Underivable(f'suffix test `{ast.unparse(test)}`')
+
+
+def _detect(path, name, reader_hdf5='read_dict_hdf5', reader_pkl='read_dict_pkl'):
+    fn = _func(path, name)
+    body = _strip_doc(fn.body)
+    if not (len(body) == 3 and isinstance(body[0], ast.If) and isinstance(body[1], ast.If)
+            and isinstance(body[2], ast.Return)):
+        raise Underivable(f'{name}: body is not detect-if / read-if / return')
+    outer = body[0]
+    if ast.unparse(outer.test) != 'file_type is None' or outer.orelse or len(outer.body) != 1 \
+            or not isinstance(outer.body[0], ast.If) \
+            or ast.unparse(outer.body[0].test) != 'isinstance(filename, str)' or outer.body[0].orelse \
+            or len(outer.body[0].body) != 1 or not isinstance(outer.body[0].body[0], ast.If):
+        raise Underivable(f'{name}: detection block changed')
+    lines, node, kw = [], outer.body[0].body[0], 'if'
+    while True:
+        if not (len(node.body) == 1 and isinstance(node.body[0], ast.Assign)
+                and ast.unparse(node.body[0].targets[0]) == 'file_type'
+                and isinstance(node.body[0].value, ast.Constant)
+                and node.body[0].value.value in TYPE_CODE):
+            raise Underivable(f'{name}: detection branch body changed')
+        lines.append(f'    {kw} {_suffix_test(node.test)}:')
+        lines.append(f'        return {TYPE_CODE[node.body[0].value.value]}')
+        if len(node.orelse) == 1 and isinstance(node.orelse[0], ast.If):
+            node, kw = node.orelse[0], 'elif'
+            continue
+        if node.orelse:
+            raise Underivable(f'{name}: detection has an else branch')
+        break
+    lines += ['    else:', '        return 0']
+    # the reading dispatch: hdf5 -> read_dict_hdf5, pkl -> read_dict_pkl, else raise ValueError
+    rd = body[1]
+    want = [("file_type == 'hdf5'", reader_hdf5), ("file_type == 'pkl'", reader_pkl)]
+    node = rd
+    for test, reader in want:
+        if not (isinstance(node, ast.If) and ast.unparse(node.test) == test
+                and reader in _calls(node.body)):
+            raise Underivable(f'{name}: reading dispatch changed at `{test}`')
+        node = node.orelse[0] if len(node.orelse) == 1 else node.orelse
+    if not (isinstance(node, ast.Raise) and 'ValueError' in ast.unparse(node)):
+        raise Underivable(f'{name}: unknown file type no longer raises ValueError')
+    return lines
+
+
+# ----------------------------------------------------------------------------- save
+
+def _save_plan(path, cls):
+    fn = _func(path, 'save', cls)
+    args = [a.arg for a in fn.args.args]
+    if args != ['self', 'filename', 'file_type', 'overwrite']:
+        raise Underivable(f'{cls}.save arguments {args}')
+
+    def test(t):
+        s = ast.unparse(t)
+        if s == 'overwrite':
+            return 'overwrite > 0'
+        if s == "file_type == 'hdf5'":
+            return 'is_hdf5 > 0'
+        if s == "file_type == 'pkl'":
+            return 'is_pkl > 0'
+        raise Underivable(f'{cls}.save: test `{s}`')
+
+    def gen(stmts, removed, ind):
+        """symbolic execution: `removed` = has remove_file run on this path?"""
+        pad = ' ' * ind
+        if not stmts:
+            return [pad + f'return {removed}']
+        s, rest = stmts[0], list(stmts[1:])
+        if isinstance(s, ast.Assign) and ast.unparse(s.value) == 'self.to_dict()':
+            return gen(rest, removed, ind)
+        if isinstance(s, ast.Expr) and isinstance(s.value, ast.Call):
+            f = ast.unparse(s.value.func)
+            a0 = ast.unparse(s.value.args[0]) if s.value.args else ''
+            if f == 'remove_file' and a0 == 'filename':
+                return gen(rest, 1, ind)
+            if f in ('write_dict_hdf5', 'write_dict_pkl') and a0 == 'filename':
+                if rest:
+                    raise Underivable(f'{cls}.save: statements after the writer')
+                return [pad + f"return {(2 if f.endswith('hdf5') else 4) + removed}"]
+        if isinstance(s, ast.If):
+            return ([pad + f'if {test(s.test)}:'] + gen(list(s.body) + rest, removed, ind + 4)
+                    + [pad + 'else:'] + gen(list(s.orelse) + rest, removed, ind + 4))
+        raise Underivable(f'{cls}.save: statement `{ast.unparse(s)[:60]}`')
+    return gen(_strip_doc(fn.body), 0, 4)
+
+
+def _save_default(path, cls):
+    fn = _func(path, 'save', cls)
+    args = [a.arg for a in fn.args.args]
+    defaults = fn.args.defaults
+    if args != ['self', 'filename', 'file_type', 'overwrite'] or len(defaults) != 2:
+        raise Underivable(f'{cls}.save signature')
+    ft, ov = defaults
+    if not (isinstance(ft, ast.Constant) and ft.value in ('hdf5', 'pkl')
+            and isinstance(ov, ast.Constant) and isinstance(ov.value, bool)):
+        raise Underivable(f'{cls}.save defaults')
+    return [f"    return {(2 if ft.value == 'hdf5' else 4) + (1 if ov.value else 0)}"]
+
+
+def _guard():
+    fn = _func('io/hdf5.py', 'write_dict_hdf5')
+    body = _strip_doc(fn.body)
+    if not (isinstance(body[0], ast.If) and ast.unparse(body[0].test) == 'isinstance(fhandle, str)'
+            and not body[0].orelse and len(body[0].body) == 1 and isinstance(body[0].body[0], ast.If)):
+        raise Underivable('write_dict_hdf5: guard block changed')
+    inner = body[0].body[0]
+    if ast.unparse(inner.test) != 'os.path.exists(fhandle)' or inner.orelse \
+            or not (len(inner.body) == 1 and isinstance(inner.body[0], ast.Raise)
+                    and 'ValueError' in ast.unparse(inner.body[0])):
+        raise Underivable('write_dict_hdf5: guard no longer raises ValueError on an existing path')
+    rest = ' ; '.join(ast.unparse(b) for b in body[1:])
+    if "File(fhandle, 'a')" not in rest or '_write_to_group(file, dictionary)' not in rest:
+        raise Underivable('write_dict_hdf5: open / write changed')
+    return ['    if is_str > 0:', '        if path_exists > 0:', '            return 1', '    return 0']
+
+
+# ----------------------------------------------------------------------------- emit
+
+def _derive():
+    out = ['# DERIVED by harness/leaves/C16.py from the source tree under check - do not edit', '']
+
+    def emit(name, params, lines_fn):
+        try:
+            lines = lines_fn()
+        except Exception as exc:  # noqa: BLE001  (fail closed)
+            lines = ['    return __underivable__(' + repr(str(exc)) + ')']
+        out.append(f'def {name}({", ".join(params)}):')
+        out.extend(lines)
+        out.append('')
+
+    emit('write_dispatch', WRITE_FLAGS, _write_dispatch)
+    emit('list_dispatch', ['raises_type', 'raises_value', 'is_unicode'], _list_dispatch)
+    suf = ['end4_pkl', 'end3_h5', 'end4_hdf5']
+    emit('detect_rdm', suf, lambda: _detect('rdm/rdms.py', 'load_rdm'))
+    emit('detect_dataset', suf, lambda: _detect('data/dataset.py', 'load_dataset'))
+    emit('detect_results', suf, lambda: _detect('inference/result.py', 'load_results'))
+    sp = ['is_hdf5', 'is_pkl', 'overwrite']
+    emit('save_plan_rdms', sp, lambda: _save_plan('rdm/rdms.py', 'RDMs'))
+    emit('save_plan_dataset', sp, lambda: _save_plan('data/base.py', 'DatasetBase'))
+    emit('save_plan_result', sp, lambda: _save_plan('inference/result.py', 'Result'))
+    emit('save_default_rdms', [], lambda: _save_default('rdm/rdms.py', 'RDMs'))
+    emit('save_default_dataset', [], lambda: _save_default('data/base.py', 'DatasetBase'))
+    emit('save_default_result', [], lambda: _save_default('inference/result.py', 'Result'))
+    emit('guard', ['is_str', 'path_exists'], _guard)
+
+    text = '\n'.join(out)
+    if not (os.path.exists(DERIVED) and open(DERIVED).read() == text):
+        with open(DERIVED + '.tmp', 'w') as f:
+            f.write(text)
+        os.replace(DERIVED + '.tmp', DERIVED)
+
+
+_derive()
+
+
+def _nat(names):
+    return {n: 'Nat' for n in names}
+
+
+_SUF = _nat(['end4_pkl', 'end3_h5', 'end4_hdf5'])
+_SP = _nat(['is_hdf5', 'is_pkl', 'overwrite'])
+
 LEAVES = [
     dict(name='nFromReduced', file='util/rdm_utils.py', func='_get_n_from_reduced_vectors',
          kind='func', params={'x_shape_1': 'Nat'}, ret='Nat'),
@@ -15,4 +380,21 @@ LEAVES = [
     dict(name='correct1dNone', file='util/inference_util.py', func='_correct_1d',
          kind='func', params={'variance': 'A', 'n_pattern': 'A', 'n_rdm': 'A'},
          none=['n_pattern', 'n_rdm'], ret='A'),
+    dict(name='writeDispatch', file=DERIVED, func='write_dispatch', kind='func',
+         params=_nat(WRITE_FLAGS), ret='Nat'),
+    dict(name='listDispatch', file=DERIVED, func='list_dispatch', kind='func',
+         params=_nat(['raises_type', 'raises_value', 'is_unicode']), ret='Nat'),
+    dict(name='detectRdm', file=DERIVED, func='detect_rdm', kind='func', params=_SUF, ret='Nat'),
+    dict(name='detectDataset', file=DERIVED, func='detect_dataset', kind='func', params=_SUF, ret='Nat'),
+    dict(name='detectResults', file=DERIVED, func='detect_results', kind='func', params=_SUF, ret='Nat'),
+    dict(name='savePlanRdms', file=DERIVED, func='save_plan_rdms', kind='func', params=_SP, ret='Nat'),
+    dict(name='savePlanDataset', file=DERIVED, func='save_plan_dataset', kind='func', params=_SP, ret='Nat'),
+    dict(name='savePlanResult', file=DERIVED, func='save_plan_result', kind='func', params=_SP, ret='Nat'),
+    dict(name='saveDefaultRdms', file=DERIVED, func='save_default_rdms', kind='func', params={}, ret='Nat'),
+    dict(name='saveDefaultDataset', file=DERIVED, func='save_default_dataset', kind='func', params={},
+         ret='Nat'),
+    dict(name='saveDefaultResult', file=DERIVED, func='save_default_result', kind='func', params={},
+         ret='Nat'),
+    dict(name='guard', file=DERIVED, func='guard', kind='func', params=_nat(['is_str', 'path_exists']),
+         ret='Nat'),
 ]
